@@ -9,7 +9,7 @@
 (*            overflow indications, unsolicited data and nulls, reconnects *)
 (*   sched    two associations, polls, user requests, keep-alive           *)
 (***************************************************************************)
-EXTENDS MasterEv, Json
+EXTENDS MasterEv, MDevSets, Json
 
 CONSTANTS Alpha, MaxSteps, MaxReq, MonName
 
@@ -69,7 +69,8 @@ InputsResp(st) ==
 
 InputsStartup(st) ==
     (IF st.pc = "Down" /\ ~st.pipe THEN {[k |-> "conn"]} ELSE IF st.pc = "Down" THEN {} ELSE {[k |-> "cut"]})
-    \cup (IF st.nreq < MaxReq THEN {[k |-> "req", m |-> [k |-> "task", a |-> 1, task |-> [t |-> "uread", id |-> NextId(st)]]]} ELSE {})
+    \cup (IF st.nreq < MaxReq THEN {[k |-> "req", m |-> [k |-> "task", a |-> 1, task |-> [t |-> "uread", id |-> NextId(st)]]],
+                                     [k |-> "req", m |-> [k |-> "poll_add", a |-> 1, pid |-> Len(st.A[1].polls), period |-> 1500, id |-> NextId(st)]]} ELSE {})
     \cup (IF st.pc \in {"Down", "Dead"} THEN {} ELSE
             {[k |-> "rx", f |-> Resp(CurSeq(st), 1, b, i)] :
                  b \in {"empty", "data"}, i \in {{}, {"err"}, {"rst"}, {"time"}, {"ovf"}, {"c1"}}}
@@ -139,4 +140,16 @@ Cfg_quiet2 == <<A_quiet(1024), A_quiet(1025)>>
 Cfg_ka2 == <<A_ka(1024), A_quiet(1025)>>
 DEVM_none == {}
 DEVM_d9 == {"NoConfirmForNonRead"}
+\* hypothetical deviations: the monitors must find each of them (sensitivity of the monitors)
+DEVM_h1 == {"H_AnySeq"}
+DEVM_h2 == {"H_OperateAnyReply"}
+DEVM_h3 == {"H_SuccessAnyReply"}
+DEVM_h4 == {"H_UnsolUngated"}
+DEVM_h5 == {"H_NoBackoff"}
+DEVM_h6 == {"H_PollsDuringStartup"}
+DEVM_h7 == {"H_LifoQueue"}
+DEVM_h8 == {"H_PollFirst"}
+DEVM_h9 == {"H_PollPeriodFromStart"}
+DEVM_h10 == {"H_NoRotate"}
+DEVM_h11 == {"H_KeepAliveIgnoresActivity"}
 =============================================================================
